@@ -1,9 +1,12 @@
 #!/bin/bash
 # tools/run_seed.sh <seed-name> <property-id> [tier]: apply /verif/seeded/<name>/patch.diff to /repo, run the check, undo.
+# The committed evidence file (which must describe the unchanged tree) is saved before and restored after the run.
 name=$1; pid=$2; tier=${3:-quick}
 cd /repo && git diff --quiet || { echo "/repo not clean"; exit 9; }
 git -C /repo apply /verif/seeded/$name/patch.diff || exit 9
+cp /verif/evidence/$pid.json /tmp/evidence_$pid.$$.json 2>/dev/null
 cd /verif && ./bin/check $pid --tier $tier > /tmp/seedrun_$name.log 2>&1; code=$?
 git -C /repo checkout -- .
+[ -f /tmp/evidence_$pid.$$.json ] && mv /tmp/evidence_$pid.$$.json /verif/evidence/$pid.json
 grep -E "VIOLATION|HARNESS|INCONCL|WITNESS|exit=" /tmp/seedrun_$name.log | cut -c1-220 | head -4
 echo "seed=$name property=$pid tier=$tier exit=$code"
